@@ -36,7 +36,11 @@ def facts_of(p):
 def task(rng, i, form, inp, timing, stages, cancel=None, compose=False, line=None):
     p = {"form": form, "inp": inp, "timing": timing, "stages": [list(s) for s in stages],
          "d_in": rng.choice([0, 100, 100]), "d_inner": rng.choice([0, 0, 50, 100]),
-         "early": rng.random() < 0.3, "cancel": cancel, "compose": compose}
+         "early": rng.random() < 0.3, "cancel": cancel, "compose": compose,
+         # variants that must be transparent to the laws: the input is an f_proxy of the future (f_ form), the
+         # input's exception is an instance of a CancelledError subclass (a failure, not a cancellation)
+         "proxy_input": bool(form == 1 and rng.random() < 0.25),
+         "orig_cancelled_error": bool(inp == 1 and rng.random() < 0.25)}
     strat = ["random", rng.randrange(10 ** 9), 0.6] if i % 4 else ["pct", rng.randrange(10 ** 9), 3, 250]
     gran = "line" if (line if line is not None else i % 5 == 0) else "sync"
     return {"scen": "maplaws", "params": p, "strat": strat, "gran": gran, "facts": facts_of(p)}
